@@ -102,6 +102,8 @@ def gen_payload(rng):
 
 
 def explore(res, tier, seed, model_ok=True):
+    import gencheck   # differential test of the translated code (Generated/Code.lean) against the original Python
+    gencheck.run(res, 'C05', tier, seed, model_ok)
     rng = random.Random(seed)
     res.rule = ('exhaustive: 9x256 validator steps and all byte strings of length <= %d on the real Utf8Validator vs model vs RFC 3629 oracle; '
                 'generated: text payloads (valid, and invalid by 7 corruption kinds) x fragmentation x read cuts through the real receive path; '
